@@ -203,6 +203,9 @@ func (vc *VC) modifiedVars(nodes ...ast.Node) []types.Object {
 								mark(a)
 							} else if fcn != nil && fcn.Inline {
 								mark(a)
+							} else if fcn != nil && i < sig.Params().Len() && contains(fcn.Modifies, sig.Params().At(i).Name()) {
+								// the callee's contract says it writes through this map/slice
+								mark(a)
 							}
 						}
 					}
